@@ -1402,7 +1402,15 @@ class Config:  # pylint: disable=too-many-instance-attributes
             # All included config files must have the same file format (you can't include XML from
             # a JSON file, for example).
             formatter = format_factory()
-            tree = field.include(self, formatter, filename, tree)
+            try:
+                tree = field.include(self, formatter, filename, tree)
+            except ValidationError:
+                raise
+            except ValueError as err:
+                # a rejected include path is a validation error of the include field
+                raise ValidationError(
+                    self, field, err, ref_path=field._ref_path  # type: ignore
+                ) from err
 
         for key, sub_schema in sub_schemas:
             # (a value that is not a map is rejected with a proper error by load_tree)
